@@ -25,6 +25,7 @@ def _env():
     e = dict(os.environ)
     e['C2PA_VERIF_DIR'] = VERIF
     e['CARGO_NET_OFFLINE'] = 'true'
+    e['CARGO_PROFILE_TEST_DEBUG'] = '0'
     e['PATH'] = e.get('PATH', '') + ':/root/.cargo/bin'
     return e
 
